@@ -235,6 +235,10 @@ func (c *Ctx) returnsExceptional(fn *ssa.Function, name string) []*ssa.BasicBloc
 func ruleOverflowGuard(c *Ctx, r *Report) {
 	const rule = "R-OVERFLOW-GUARD"
 	var names []string
+	primSet := map[*ssa.Function]bool{}
+	for _, fn := range c.integerPrims() {
+		primSet[fn] = true
+	}
 	for _, fn := range c.integerPrims() {
 		names = append(names, fn.Name())
 		ovf := c.returnsExceptional(fn, "exceptionalValueIntOverflow")
@@ -276,6 +280,43 @@ func ruleOverflowGuard(c *Ctx, r *Report) {
 				}
 			}
 			if !full {
+				// (after seed C07h) ... unless the wrapping result is handed to another checked primitive while one
+				// operand is a full-range parameter: the callee's checks speak about a value that may already have
+				// wrapped (x - (x mod y) handed to the checked division).
+				hasParam := false
+				for _, o := range operands {
+					if fromParam(o) {
+						hasParam = true
+					}
+				}
+				if hasParam {
+					var sink *ssa.Call
+					seen := map[ssa.Value]bool{}
+					var follow func(v ssa.Value)
+					follow = func(v ssa.Value) {
+						if seen[v] || v.Referrers() == nil {
+							return
+						}
+						seen[v] = true
+						for _, ref := range *v.Referrers() {
+							switch x := ref.(type) {
+							case *ssa.Phi:
+								follow(x)
+							case *ssa.ChangeType:
+								follow(x)
+							case *ssa.Call:
+								if callee := x.Call.StaticCallee(); callee != nil && primSet[callee] {
+									sink = x
+								}
+							}
+						}
+					}
+					follow(val)
+					if sink != nil {
+						r.bad(rule, key, c.at(in), desc, "the unchecked result (one operand is the full-range parameter) is handed to "+sink.Call.StaticCallee().Name()+": that primitive's overflow and zero checks are made on a value that may already have wrapped around")
+						return
+					}
+				}
 				r.info(rule, key, c.at(in), desc, "an operand is a derived value (restricted range): absence of overflow needs value reasoning, not decided here")
 				return
 			}
